@@ -58,6 +58,15 @@ def load_corpus():
             for f in sorted(os.listdir(os.path.join(b2, d))):
                 if f.startswith("patch") and f.endswith(".diff") and f"{d}/{f}" not in skip:
                     refs.append({"id": f"refactor2-{d}-{f[5:-5]}", "props": allp, "edits": [], "patch": os.path.join(b2, d, f)})
+    # round 4 (small commits around the rules of seed rounds 5-7): all 40 silent, part of the corpus
+    b4 = os.path.join(VERIF, "benign4")
+    if os.path.isdir(b4):
+        for d in sorted(os.listdir(b4)):
+            if not os.path.isdir(os.path.join(b4, d)):
+                continue
+            for f in sorted(os.listdir(os.path.join(b4, d))):
+                if f.startswith("patch") and f.endswith(".diff"):
+                    refs.append({"id": f"refactor4-{d}-{f[5:-5]}", "props": allp, "edits": [], "patch": os.path.join(b4, d, f)})
     return list(MUTANTS) + seeds, list(BENIGN) + refs
 
 
